@@ -1,7 +1,7 @@
 """Abstract DSL statement descriptions (JSON), their construction through the real forml.io.dsl API, and generators.
 
 feature : ['col', table, name] | ['elem', refname, name] | ['lit', value] | ['alias', feature, name]
-        | ['bin', op, a, b] | ['not', a] | ['agg', fn, a]
+        | ['bin', op, a, b] | ['not', a] | ['agg', fn, a] | ['win', 'rownumber', [partition feature, ...]]
 source  : ['table', t] | ['ref', source, name] | ['join', kind, left, right, cond|None] | ['set', kind, left, right]
         | ['query', source, {'sel': [...], 'pre': f|None, 'grp': [...], 'post': f|None, 'ord': [[f, dir]...], 'rows': [count, offset]|None}]
 """
@@ -49,6 +49,8 @@ def build_feature(desc, env):
     if tag == 'agg':
         fn = {'count': function.Count, 'sum': function.Sum, 'min': function.Min, 'max': function.Max, 'avg': function.Avg}[desc[1]]
         return fn(build_feature(desc[2], env))
+    if tag == 'win':
+        return function.RowNumber().over([build_feature(p, env) for p in desc[2]])
     if tag == 'bin':
         a, b = build_feature(desc[2], env), build_feature(desc[3], env)
         ops = {'+': operator.add, '-': operator.sub, '*': operator.mul, '==': operator.eq, '!=': operator.ne, '<': operator.lt,
@@ -169,6 +171,8 @@ def kind_of(f, refs=None):
         return 'bool'
     if tag == 'agg':
         return 'int' if f[1] == 'count' else kind_of(f[2], refs)
+    if tag == 'win':
+        return 'int'
     if tag == 'bin':
         if f[1] in ARITH:
             ka, kb = kind_of(f[2], refs), kind_of(f[3], refs)
